@@ -200,9 +200,9 @@ namespace adept {
 						  const Vector& max_x,
 						  bool use_additive_damping)
   {
-    if (any(min_x >= max_x)
-	|| min_x.size() != x.size()
-	|| max_x.size() != x.size()) {
+    if (min_x.size() != x.size()
+	|| max_x.size() != x.size()
+	|| any(min_x >= max_x)) {
       return MINIMIZER_STATUS_INVALID_BOUNDS;
     }
 
